@@ -39,7 +39,7 @@ pub fn run_once(body: &dyn Body, choices: &[usize]) -> Exec<OnceResult> {
     PANICS.lock().unwrap().clear();
     let dir = fresh_dir();
     let launched = body.launch(&dir);
-    let (end, trace, names) = s.run_to_end(Duration::from_secs(8));
+    let (end, trace, names) = s.run_to_end(Duration::from_secs(30));
     let verdict = match &end {
         EndState::AllFinished => {
             for h in launched.handles {
